@@ -154,7 +154,20 @@ impl SwiftField for Field61 {
         }
 
         let transaction_type = input[pos..pos + 4].to_string();
-        parse_swift_chars(&transaction_type, "Field 61 transaction type")?;
+        // 1!a3!c: one upper-case letter, then three upper-case letters or digits
+        let type_bytes = transaction_type.as_bytes();
+        if !type_bytes[0].is_ascii_uppercase()
+            || !type_bytes[1..]
+                .iter()
+                .all(|b| b.is_ascii_uppercase() || b.is_ascii_digit())
+        {
+            return Err(ParseError::InvalidFormat {
+                message: format!(
+                    "Field 61 transaction type must be 1!a3!c, found '{}'",
+                    transaction_type
+                ),
+            });
+        }
         pos += 4;
 
         // Supplementary details are on their own line: split it off first, so that a `//` or an
@@ -163,6 +176,12 @@ impl SwiftField for Field61 {
             Some((l1, l2)) => (l1, Some(l2)),
             None => (&input[pos..], None),
         };
+        // The statement line has at most two lines
+        if second_line.is_some_and(|l| l.contains('\n')) {
+            return Err(ParseError::InvalidFormat {
+                message: "Field 61 has more than two lines".to_string(),
+            });
+        }
 
         // Parse customer reference (up to 16 characters until // or end of the line)
         let (customer_ref_part, after_customer_ref) =
